@@ -222,11 +222,13 @@ type c20Extra struct {
 }
 
 func scenarioC20(rc *RunCtx) *Violation {
-	switch rc.G.n(8) {
+	switch rc.G.n(10) {
 	case 0, 1:
 		return scenarioC20Service(rc)
 	case 2, 3, 4:
 		return scenarioC20Serve(rc)
+	case 8, 9:
+		return scenarioC20Builds(rc)
 	}
 	g := rc.G
 	p := GenProject(g, "/p")
